@@ -80,6 +80,13 @@ Theorem C05_ctor_seeds : forall ss s w e, new_with_seeds ss s w = Ok e ->
   Byte.to_N (e_disc e) = 1 /\ unpack_config (e_cfg e) = Ok ss /\ length (e_cfg e) = 32%nat /\
   pod_bool (e_signer e) = s /\ pod_bool (e_writable e) = w.
 Proof. exact ctor_seeds. Qed.
+(** constructor and resolver composed: a config built from a seed list resolves to the
+    canonical address of exactly those seeds' values, with the requested flags *)
+Theorem C05_ctor_seeds_resolves : forall find_pda ss s w e ix pid get vs,
+  new_with_seeds ss s w = Ok e -> seed_values ss ix get = Ok vs ->
+  resolve find_pda e ix pid get =
+  match find_pda vs pid with Some k => Ok {| m_key := k; m_signer := s; m_writable := w |} | None => Err E_RES end.
+Proof. exact ctor_seeds_resolves. Qed.
 Theorem C05_ctor_external : forall idx ss s w,
   (128 <= Byte.to_N idx -> exists c, new_external_pda idx ss s w = Err c) /\
   (forall e, new_external_pda idx ss s w = Ok e ->
